@@ -388,6 +388,16 @@ class Recorder:
                 # callee for its name (_PyObject_FunctionStr); the text only ends up in the exception message
                 return None
             if _reaches_format(a) or _reaches_format(b):
+                fk = _format_kind(a)
+                fmt = None
+                if fk is not None and fk[0] == "sm":
+                    fmt = fk[1]
+                elif fk is not None and isinstance(b, (tuple, list)) and b and type(b[0]) is str:
+                    fmt = b[0]
+                if fmt is not None:
+                    top, nested = _fmt_attr_names(fmt)
+                    if name in nested and name not in top:
+                        return "format-nested-field-attribute"
                 return "format-field-attribute"
             if isinstance(a, types.BuiltinFunctionType) and getattr(a, "__self__", None) is builtins \
                     and a.__name__ not in DOC_WHITELIST:
@@ -402,80 +412,195 @@ class Recorder:
 # ---------------------------------------------------------------------------------------------------------
 # str.format: is a call inside the modelled class?
 
-_FMT_STRICT = re.compile(r"^(?:[^{}]|\{\{|\}\}|\{[A-Za-z0-9_]*(?:\.[A-Za-z0-9_]+|\[(?:(?![\]\[{}!:])[ -~])+\])*(?:![rs])?\})*$")
-_FIELD = re.compile(r"\{\{|\}\}|\{([A-Za-z0-9_]*)((?:\.[A-Za-z0-9_]+|\[[^\]]+\])*)(![rs])?\}")
+_REF = re.compile(r"^([A-Za-z0-9_]*)((?:\.[A-Za-z0-9_]+|\[(?:(?![\]\[{}!:])[ -~])+\])*)(?:!([rs]))?$")
 _STEP = re.compile(r"\.([A-Za-z0-9_]+)|\[([^\]]+)\]")
+_SPEC_OK = re.compile(r"^[<>^]?[1-9][0-9]?$")
+
+
+def _parse_ref(text):
+    m = _REF.match(text)
+    if not m:
+        return None
+    name, path, conv = m.group(1), m.group(2) or "", m.group(3)
+    if name.isdigit() and len(name) > 6:
+        return None
+    steps = []
+    for st in _STEP.finditer(path):
+        if st.group(2) is not None and st.group(2).isdigit() and len(st.group(2)) > 6:
+            return None
+        steps.append((st.group(1), st.group(2)))
+    return (name, steps, conv)
+
+
+def _parse_fmt(fmt):
+    """[(ref, spec pieces)] for the format strings of the modelled class, else None.  A field is
+    `{ref}` or `{ref:spec}`, ref = name(.attr|[key])*(!r|!s)?, spec = literal characters and nested `{ref}`."""
+    out = []
+    i, n = 0, len(fmt)
+    while i < n:
+        c = fmt[i]
+        if c == "{":
+            if fmt[i + 1:i + 2] == "{":
+                i += 2
+                continue
+            depth, j = 0, i + 1
+            while j < n:
+                if fmt[j] == "{":
+                    depth += 1
+                elif fmt[j] == "}":
+                    if depth == 0:
+                        break
+                    depth -= 1
+                j += 1
+            else:
+                return None
+            refpart, sep, specpart = fmt[i + 1:j].partition(":")
+            ref = _parse_ref(refpart)
+            if ref is None:
+                return None
+            spec, lit, k = [], "", 0
+            while k < len(specpart):
+                ch = specpart[k]
+                if ch == "{":
+                    e = specpart.find("}", k)
+                    if e < 0 or "{" in specpart[k + 1:e]:
+                        return None
+                    r = _parse_ref(specpart[k + 1:e])
+                    if r is None:
+                        return None
+                    if lit:
+                        spec.append(lit)
+                        lit = ""
+                    spec.append(r)
+                    k = e + 1
+                elif ch == "}" or not (" " <= ch <= "~"):
+                    return None
+                else:
+                    lit += ch
+                    k += 1
+            if lit:
+                spec.append(lit)
+            out.append((ref, spec))
+            i = j + 1
+        elif c == "}":
+            if fmt[i + 1:i + 2] == "}":
+                i += 2
+                continue
+            return None
+        else:
+            i += 1
+    return out
+
+
+_OPAQUE = ("?", "sm", "sf", "bi", "f", "tok", "gen")
+
+
+class _Stop(Exception):
+    """The real call stops here; .modelled says whether the Lean host stops the same way."""
+    def __init__(self, modelled):
+        self.modelled = modelled
+
+
+def _sim_ref(ref, st, pos, mapping):
+    """string.Formatter: auto numbering, _SafeFormatter.get_field, convert_field — on the real objects, with the
+    tripwire off.  Returns the (converted) object; raises _Stop where the real call raises or leaves the host."""
+    name, steps, conv = ref
+    if name == "" and not steps:
+        if st["auto"] is False:
+            raise _Stop(True)       # ValueError
+        key = st["auto"]
+        st["auto"] += 1
+    elif name.isdigit() and not steps:
+        if st["auto"]:
+            raise _Stop(True)       # ValueError
+        st["auto"] = False
+        key = int(name)
+    else:
+        key = int(name) if name.isdigit() else name
+    if any(a is not None and a.startswith("_") for a, _ in steps):
+        raise _Stop(True)           # ParseError from _SafeFormatter.get_field
+    try:
+        if isinstance(key, int):
+            obj = pos[key]
+        else:
+            if mapping is None:
+                raise _Stop(True)   # KeyError
+            obj = mapping[key]
+    except _Stop:
+        raise
+    except Exception:
+        raise _Stop(True)
+    for attr, k in steps:
+        if attr is not None:
+            if type(obj) is Sentinel:
+                d = object.__getattribute__(obj, "__dict__")
+                if attr in d:
+                    obj = d[attr]
+                    continue
+            try:
+                object.__getattribute__(obj, attr) if type(obj) in (Sentinel, M) else getattr(obj, attr)
+            except AttributeError:
+                raise _Stop(True)   # the real call raises AttributeError here
+            except Exception:
+                raise _Stop(False)
+            raise _Stop(False)      # attribute exists but is not part of the host description
+        else:
+            kk = int(k) if k.isdigit() else k
+            try:
+                obj = obj[kk]
+            except Exception:
+                raise _Stop(True)
+    if has_tag(canon(obj), _OPAQUE):
+        raise _Stop(False)
+    if conv == "r":
+        return repr(obj)
+    if conv == "s":
+        return str(obj)
+    return obj
 
 
 def _fmt_modelled(fmt, args, mapping, env):
     """True iff `_safe_format(fmt, *args)` (mapping is None) / `_safe_format_map(fmt, mapping)` stays inside the
     Lean host.  Mirrors string.Formatter._vformat + _SafeFormatter.get_field just far enough to know where the
     real call stops."""
-    if not _FMT_STRICT.match(fmt):
+    fields = _parse_fmt(fmt)
+    if fields is None:
         return False
-    for m in _FIELD.finditer(fmt):
-        if m.group(0) in ("{{", "}}"):
-            continue
-        for st in _STEP.finditer(m.group(2) or ""):
-            key = st.group(2)
-            if key is not None and (any(c in key for c in "{}!:[") or (key.isdigit() and len(key) > 6)):
-                return False
-        if m.group(1).isdigit() and len(m.group(1)) > 6:
-            return False
-    auto = 0                # auto_arg_index: an int, or False
+    st = {"auto": 0}                # auto_arg_index: an int, or False
     pos = list(args) if mapping is None else []
-    for m in _FIELD.finditer(fmt):
-        if m.group(0) in ("{{", "}}"):
-            continue
-        name, path = m.group(1), m.group(2) or ""
-        if name == "" and path == "":
-            if auto is False:
-                return True     # ValueError
-            key = auto
-            auto += 1
-        elif name.isdigit() and path == "":
-            if auto:
-                return True     # ValueError
-            auto = False
-            key = int(name)
-        else:
-            key = int(name) if name.isdigit() else name
-        steps = [(st.group(1), st.group(2)) for st in _STEP.finditer(path)]
-        if any(a is not None and a.startswith("_") for a, _ in steps):
-            return True         # ParseError from _SafeFormatter.get_field
-        try:
-            if isinstance(key, int):
-                obj = pos[key]
-            else:
-                if mapping is None:
-                    return True  # KeyError
-                obj = mapping[key]
-        except Exception:
-            return True
-        for attr, k in steps:
-            if attr is not None:
-                if type(obj) is Sentinel:
-                    d = object.__getattribute__(obj, "__dict__")
-                    if attr in d:
-                        obj = d[attr]
-                        continue
-                try:
-                    object.__getattribute__(obj, attr) if type(obj) in (Sentinel, M) else getattr(obj, attr)
-                except AttributeError:
-                    return True     # the real call raises AttributeError here
-                except Exception:
+    try:
+        for ref, spec in fields:
+            obj = _sim_ref(ref, st, pos, mapping)
+            text = ""
+            for piece in spec:
+                if isinstance(piece, str):
+                    text += piece
+                else:
+                    text += format(_sim_ref(piece, st, pos, mapping), "")
+            if text:
+                if not _SPEC_OK.match(text):
                     return False
-                return False        # attribute exists but is not part of the host description
-            else:
-                kk = int(k) if k.isdigit() else k
-                try:
-                    obj = obj[kk]
-                except Exception:
-                    return True
-        c = canon(obj)
-        if has_tag(c, ("?", "sm", "sf", "bi", "f", "tok", "gen")):
-            return False
+                if type(obj) in (str, int):
+                    continue
+                if obj is None or type(obj) in (list, tuple, dict, Sentinel, M):
+                    return True     # TypeError: unsupported format string passed to …
+                return False
+    except _Stop as e:
+        return e.modelled
     return True
+
+
+def _fmt_attr_names(fmt):
+    """(attribute names used by top-level fields, attribute names used by fields nested in a format spec)."""
+    top, nested, depth = [], [], 0
+    for ch in fmt:
+        if ch == "{":
+            depth += 1
+        elif ch == "}":
+            depth = max(0, depth - 1)
+        (top if depth <= 1 else nested).append(ch if depth else " ")
+    f = lambda t: set(re.findall(r"\.([A-Za-z0-9_]+)", "".join(t)))
+    return f(top), f(nested)
 
 
 # ---------------------------------------------------------------------------------------------------------
@@ -710,16 +835,179 @@ def _run_instrumented(case):
         env.close()
 
 
+_PRISTINE_GLOBALS = None
+
+
+def worker_init():
+    global _PRISTINE_GLOBALS
+    import graphtage.expressions as E
+    _PRISTINE_GLOBALS = dict(E.DEFAULT_GLOBALS)
+
+
+def _state_probe(where):
+    """Module-level state that must not change between evaluations: DEFAULT_GLOBALS is exactly the documented
+    whitelist (bound to the builtins of those names), and `from` / `to` do not resolve when they are not given.
+    Leaks are reported and then removed, so that every case starts from the same state."""
+    global _PRISTINE_GLOBALS
+    import graphtage.expressions as E
+    if _PRISTINE_GLOBALS is None:
+        _PRISTINE_GLOBALS = dict(E.DEFAULT_GLOBALS)
+    probs = []
+    keys = sorted(E.DEFAULT_GLOBALS)
+    if keys != sorted(DOC_WHITELIST):
+        probs.append({"kind": "globals-mutated", "where": where,
+                      "extra": sorted(set(keys) - set(DOC_WHITELIST)), "missing": sorted(set(DOC_WHITELIST) - set(keys))})
+    else:
+        wrong = [k for k in keys if E.DEFAULT_GLOBALS[k] is not getattr(builtins, k, None)]
+        if wrong:
+            probs.append({"kind": "globals-mutated", "where": where, "rebound": wrong})
+    for nm in ("from", "to"):
+        try:
+            E.parse(nm).eval()
+        except Exception:
+            continue
+        probs.append({"kind": "name-outside-whitelist", "where": where, "name": nm})
+    if probs:
+        E.DEFAULT_GLOBALS.clear()
+        E.DEFAULT_GLOBALS.update(_PRISTINE_GLOBALS)
+    return probs
+
+
+# ---------------------------------------------------------------------------------------------------------
+# sequences of evaluations and the constraints path (MatchIf / MatchUnless as __main__ drives them)
+
+def _eval_plain(text, env_desc):
+    """parse + eval on a fresh sentinel environment, nothing patched; canonical result."""
+    env = Env(env_desc)
+    try:
+        import graphtage.expressions as E
+        try:
+            return ["ok", canon(E.parse(text).eval(locals=env.locals))]
+        except Exception as e:
+            return ["exc", _exc_class(e)]
+    finally:
+        env.close()
+
+
+def _run_seq(case):
+    """Evaluate the expressions in the given order and then in reverse order, in the same process, without
+    resetting anything in between; every expression must give the same result both times."""
+    exprs = case["exprs"]
+    state, first, second = [], {}, {}
+    for idx in range(len(exprs)):
+        first[idx] = _eval_plain(exprs[idx], case["env"])
+        state += _state_probe("after #%d %r" % (idx, exprs[idx]))
+    for idx in reversed(range(len(exprs))):
+        second[idx] = _eval_plain(exprs[idx], case["env"])
+        state += _state_probe("after (reverse order) #%d %r" % (idx, exprs[idx]))
+    diff = [[exprs[i], first[i], second[i]] for i in range(len(exprs)) if _noaddr(first[i]) != _noaddr(second[i])]
+    return {"parse": "ok", "kind": "seq", "results": [first[i] for i in range(len(exprs))], "order_diff": diff,
+            "state": state, "nsteps": len(exprs)}
+
+
+def _constraints_once(docs, match_if, match_unless, log):
+    """What graphtage.__main__ does for --match-if / --match-unless, on two JSON documents."""
+    import graphtage.expressions as E
+    from graphtage import json as gjson
+    from graphtage.constraints import MatchIf, MatchUnless
+    try:
+        mi = E.parse(match_if) if match_if else None
+        mu = E.parse(match_unless) if match_unless else None
+    except Exception as e:
+        return ["parse-exc", _exc_class(e)]
+    try:
+        from_tree = gjson.build_tree(docs[0])
+        to_tree = gjson.build_tree(docs[1])
+        for node in from_tree.dfs():
+            if mi is not None:
+                MatchIf.apply(node, mi)
+            if mu is not None:
+                MatchUnless.apply(node, mu)
+        edits = list(from_tree.get_all_edits(to_tree))
+        return ["ok", sorted(type(e).__name__ for e in edits)]
+    except Exception as e:
+        return ["exc", _exc_class(e)]
+
+
+def _run_constraints(case):
+    import graphtage.expressions as E
+    jobs = case["jobs"]                 # [[match_if or None, match_unless or None], ...]
+    log = {"names": [], "bad_names": [], "under": [], "evals": 0, "raised": 0}
+    orig_get_value = E.Expression.get_value
+    saved_gv = E.Expression.__dict__["get_value"]
+    orig_eval = E.Expression.eval
+    had_getattr = "getattr" in E.__dict__
+
+    def rec_getattr(obj, name, *default):
+        if isinstance(name, str) and name.startswith("_"):
+            log["under"].append([type(obj).__name__, name])
+        return getattr(obj, name, *default)
+
+    def wrapped_get_value(token, locals, globals):
+        r = orig_get_value(token, locals, globals)
+        if isinstance(token, E.IdentifierToken):
+            nm = token.name
+            log["names"].append(nm)
+            in_loc = nm in locals
+            ok = (in_loc and locals[nm] is r) or \
+                 (not in_loc and nm in DOC_WHITELIST and getattr(builtins, nm, None) is r)
+            if not ok:
+                log["bad_names"].append(nm)
+        return r
+
+    def wrapped_eval(self, locals=None, globals=None):
+        log["evals"] += 1
+        try:
+            return orig_eval(self, locals=locals, globals=globals)
+        except Exception:
+            log["raised"] += 1
+            raise
+
+    state, first, second = [], {}, {}
+    E.getattr = rec_getattr
+    E.Expression.get_value = staticmethod(wrapped_get_value)
+    E.Expression.eval = wrapped_eval
+    try:
+        for idx, (mi, mu) in enumerate(jobs):
+            first[idx] = _constraints_once(case["docs"], mi, mu, log)
+            state += _state_probe("after constraints job #%d if=%r unless=%r" % (idx, mi, mu))
+        for idx in reversed(range(len(jobs))):
+            mi, mu = jobs[idx]
+            second[idx] = _constraints_once(case["docs"], mi, mu, log)
+            state += _state_probe("after (reverse order) constraints job #%d if=%r unless=%r" % (idx, mi, mu))
+    finally:
+        if not had_getattr and "getattr" in E.__dict__:
+            del E.getattr
+        E.Expression.get_value = saved_gv
+        E.Expression.eval = orig_eval
+    diff = [[jobs[i], first[i], second[i]] for i in range(len(jobs)) if first[i] != second[i]]
+    return {"parse": "ok", "kind": "constraints", "results": [first[i] for i in range(len(jobs))], "order_diff": diff,
+            "state": state, "names": sorted(set(log["names"])), "bad_names": sorted(set(log["bad_names"])),
+            "under": log["under"][:5], "evals": log["evals"], "raised": log["raised"], "nsteps": log["evals"]}
+
+
 def _noaddr(x):
     return re.sub(r"0x[0-9a-fA-F]+", "0x", json.dumps(x))
 
 
 def impl(case):
+    _state_probe("before the case")        # start from a clean module state (leaks belong to the case that made them)
+    if case.get("kind") == "seq":
+        return _run_seq(case)
+    if case.get("kind") == "constraints":
+        return _run_constraints(case)
     p, rec = _run_pristine(case)
-    obs = {"parse": p["parse"]}
+    state = _state_probe("after the pristine evaluation")
+    obs = {"parse": p["parse"], "state": state}
     if p["parse"] != "ok":
         return obs
     i, log = _run_instrumented(case)
+    state += _state_probe("after the instrumented evaluation")
+    # the same expression once more, AFTER the other run: cross-evaluation state would change the answer
+    again = _eval_plain(case["expr"], case["env"]) if case.get("kind", "str") == "str" else None
+    if again is not None and _noaddr(again) != _noaddr(p["res"]):
+        obs["order_diff"] = [[case["expr"], p["res"], again]]
+    state += _state_probe("after the repeated evaluation")
     obs["res"] = p["res"]
     obs["tokens"] = i.get("tokens", [])
     obs["trip"] = rec.trip
@@ -757,6 +1045,8 @@ def _model_value(v):
 def to_model(case, obs):
     if obs.get("parse") != "ok" or obs.get("unmodelled") or obs.get("diverged") or obs.get("error"):
         return None
+    if case.get("kind") in ("seq", "constraints"):
+        return None
     env = case["env"]
     sents = []
     for sd in env.get("sentinels", []):
@@ -773,7 +1063,7 @@ def to_model(case, obs):
 
 
 def expect(case, obs):
-    host = [[t["obj"][1], t["name"]] for t in obs["trip"] if t["key"] == "format-field-attribute" and t["obj"][0] == "S"]
+    host = [[t["obj"][1], t["name"]] for t in obs["trip"] if t["key"] in ("format-field-attribute", "format-nested-field-attribute") and t["obj"][0] == "S"]
     return {"res": obs["res"], "reads": obs["reads"], "host": host, "names": obs["names"]}
 
 
@@ -782,7 +1072,30 @@ def expect(case, obs):
 
 def monitor(case, obs):
     hits = []
-    if obs.get("error") or obs.get("parse") != "ok":
+    if obs.get("error"):
+        return hits
+    label = case.get("expr") or json.dumps(case.get("exprs") or case.get("jobs"))
+    for pr in obs.get("state", []):
+        if pr["kind"] == "globals-mutated":
+            hits.append({"prop": "C19", "key": "globals-mutated",
+                         "what": "DEFAULT_GLOBALS is no longer the documented whitelist %s (%s): %s" % (
+                             pr["where"], label, json.dumps({k: v for k, v in pr.items() if k not in ("kind", "where")}))})
+        else:
+            hits.append({"prop": "C19", "key": "name-outside-whitelist",
+                         "what": "identifier %r resolves although it was not given, %s (%s)" % (pr["name"], pr["where"], label)})
+    for d in obs.get("order_diff", [])[:1]:
+        hits.append({"prop": "C19", "key": "cross-evaluation-state",
+                     "what": "%s gives %s first and %s when evaluated again after other expressions" % (
+                         json.dumps(d[0]), json.dumps(d[1]), json.dumps(d[2]))})
+    for u in obs.get("under", [])[:1]:
+        hits.append({"prop": "C19", "key": "evaluator-getattr-underscore",
+                     "what": "constraints path: get_member issued getattr(%s, %r) (%s)" % (u[0], u[1], label)})
+    if case.get("kind") in ("seq", "constraints"):
+        for n in obs.get("bad_names", []):
+            hits.append({"prop": "C19", "key": "name-outside-whitelist",
+                         "what": "constraints path resolved identifier %r which is neither from/to nor a documented whitelisted builtin, or not from the given locals (%s)" % (n, label)})
+        return hits
+    if obs.get("parse") != "ok":
         return hits
     seen = set()
     for t in obs.get("trip", []):
@@ -805,6 +1118,12 @@ def monitor(case, obs):
 def classify(case, obs):
     if obs.get("error"):
         return "worker-error"
+    if case.get("kind") == "seq":
+        return "seq/n=%d/%s" % (len(case["exprs"]), "+".join(sorted({r[0] if r[0] == "ok" else r[1] for r in obs["results"]})))
+    if case.get("kind") == "constraints":
+        ev = obs.get("evals", 0)
+        return "constraints/jobs=%d/evals=%s/raised=%s" % (len(case["jobs"]), "0" if ev == 0 else "1-9" if ev < 10 else "10+",
+                                                         "none" if not obs.get("raised") else "all" if obs["raised"] == ev else "some")
     if obs.get("parse") != "ok":
         return "parse:" + obs["parse"]
     tag = "modelled" if not obs.get("unmodelled") else "monitor-only(" + obs["unmodelled"] + ")"
@@ -919,6 +1238,18 @@ class G:
         q = self.rng.choice("'\"")
         return q + s.replace("\\", "\\\\").replace(q, "\\" + q) + q
 
+    def member(self):
+        """what follows the '.': usually a bare name, sometimes a parenthesised one (the parser accepts `x.(name)`)"""
+        n = self.member_name()
+        r = self.rng.random()
+        if r < 0.10:
+            return "(" + n + ")"
+        if r < 0.14:
+            return "((" + n + "))"
+        if r < 0.16:
+            return "( " + n + " )"
+        return n
+
     def member_name(self):
         r = self.rng.random()
         if r < 0.45 and self.attrs:
@@ -941,8 +1272,30 @@ class G:
                 path += "." + rng.choice((self.attrs or PUB) + PRIV + PRIV + DUNDER[:3] + ["pub", "real", "nope"])
             else:
                 path += "[" + rng.choice(["0", "1", "-1", "a", "b", "_k", "key", "7"]) + "]"
-        conv = rng.choice(["", "", "", "!r", "!s", "!a", ":>5", ":{1}"])
-        return "{" + first + path + conv + "}"
+        conv = rng.choice(["", "", "", "!r", "!s", "!a", ""])
+        spec = ""
+        r = rng.random()
+        if r < 0.12:
+            spec = ":" + rng.choice([">5", "<4", "^7", "3", ">12", "05", "x", ">>3", ""])
+        elif r < 0.40:
+            spec = ":" + rng.choice(["", ">", "<", "^", ">", "1"]) + self.nested_field() + rng.choice(["", "", "", "0", "x"])
+        elif r < 0.44:
+            spec = ":" + self.nested_field() + self.nested_field()
+        elif r < 0.46:
+            spec = ":>{1:>{2}}"
+        return "{" + first + path + conv + spec + "}"
+
+    def nested_field(self):
+        """a replacement field inside a format spec (no spec of its own)"""
+        rng = self.rng
+        first = rng.choice(["1", "1", "0", "", "", "a", "b", "o", "2", "n"])
+        path = ""
+        for _ in range(rng.choice([0, 0, 1, 1, 2])):
+            if rng.random() < 0.75:
+                path += "." + rng.choice((self.attrs or PUB) + PRIV + PRIV + PRIV + DUNDER[:2] + ["pub", "nope"])
+            else:
+                path += "[" + rng.choice(["0", "1", "a", "b", "_k"]) + "]"
+        return "{" + first + path + rng.choice(["", "", "", "!s", "!r"]) + "}"
 
     def fmt_string(self):
         rng = self.rng
@@ -1002,7 +1355,7 @@ class G:
         for _ in range(rng.choice([0, 0, 1, 1, 2, 3])):
             r = rng.random()
             if r < 0.5:
-                e = e + rng.choice([".", ".", ".", " . "]) + self.member_name()
+                e = e + rng.choice([".", ".", ".", " . "]) + self.member()
             elif r < 0.7 and d > 0:
                 e = e + "[" + self.expr(d - 1) + "]"
             elif r < 0.9 and d > 0:
@@ -1112,7 +1465,7 @@ class G:
     def format_call(self):
         rng = self.rng
         fs = self.quote(self.fmt_string())
-        args = [rng.choice(self.vars + ["x", "x", "1", "'a'"]) for _ in range(rng.choice([0, 1, 1, 1, 2]))]
+        args = [rng.choice(self.vars + ["x", "x", "1", "'a'", "'ab'", "5", "n"]) for _ in range(rng.choice([0, 1, 1, 1, 2, 2, 3]))]
         r = rng.random()
         if r < 0.4:
             return fs + ".format(" + ", ".join(args) + ")"
@@ -1127,8 +1480,10 @@ class G:
     def member_chain(self):
         rng = self.rng
         e = rng.choice(self.vars)
+        if rng.random() < 0.15:
+            e = "(" + e + ")"
         for _ in range(rng.randint(1, 4)):
-            e += "." + self.member_name()
+            e += "." + self.member()
         r = rng.random()
         if r < 0.2:
             e += "(" + rng.choice(["", "1", "x", "1, 2", "''"]) + ")"
@@ -1181,7 +1536,18 @@ EDGE = ["", " ", "x", "x.pub", "x._priv", "x.__class__", "x . _priv", "x.'_priv'
         "(((x.gen1(0)).gi_frame.f_builtins)['getattr'])(x, '_priv')", "x,", ",", ")", "(", "]", "x]", "'abc", "0x", "x..y", "x.", ".x", "..",
         "not", "in", "x in", "x not in l", "x is y", "x if y else 1", "lambda: 1", "x ** 2", "x @ y", "1 == 1 == 1", "1 < 2 < 3", "- - 1", "not not 1",
         "a.b.c.d", "x.pub.real.imag", "x . pub", "x\t.\tpub", "'a' 'b'", "1 2", "x y", "[1, 2, 3][1]", "[[1, 2], [3]][0][1]", "([1, 2], 3)[0][1]",
-        "{}", "{1: 2}", "x;y", "x # c", "→", "x → y", "len → ('a',)"]
+        "{}", "{1: 2}", "x;y", "x # c", "→", "x → y", "len → ('a',)",
+        # format specs with nested replacement fields
+        "'{0:>{1._priv}}'.format('ab', x)", "str.format('{0:{1._priv}}', 'ab', x)", "'{b:>{a._priv}}'.format_map(d)",
+        "'{0:>{1.__class__}}'.format('ab', x)", "'{0:>{1}}'.format('ab', 5)", "'{0:^{1.pub}}'.format('ab', x)", "'{:{}}'.format(5, 3)",
+        "'{0:>{1}}'.format(x, 5)", "'{0:>{1}}'.format([1], 5)", "'{0!r:>8}'.format('ab')", "'{0:{1}{2}}'.format('ab', '>', 6)",
+        "'{0:>{1:>{2}}}'.format('a', 3, 2)", "'{0:<4}|{1:>4}|{2:^5}'.format('a', 7, 'bc')", "'{0:>{n}}'.format('a')",
+        "'{:>{}}{}'.format('a', 3, 'z')", "'{0:{}}'.format('a', 3)", "'{:{1}}'.format('a', 3)", "'{0:>{1.pub}}{1._priv}'.format('a', x)",
+        "'{0:05}'.format(7)", "'{0:>3}'.format(True)", "'{0:>3}'.format(n)", "'{b:>{a.pub}}'.format_map(d)", "'{0:{0}}'.format(3)",
+        # parenthesised member names
+        "x.(_priv)", "x.((_priv))", "(x).(__dict__)", "l[1].(_priv)", "(l[1]).(_priv)", "x.(pub)", "x.((pub))", "(x).(child).(_priv)",
+        "x.( _priv )", "x.(child)._priv", "x.(child).(pub)", "d['a'].(_priv)", "(d['a']).((__class__))", "x.(format)", "'{0}'.(format)(1)",
+        "str.(format)('{0._priv}', x)", "x.(m0)", "(x.(id1))(3)", "from.(_priv)", "to.((__secret))"]
 
 RPN_MUTS = [["del", 0], ["del", 1], ["del", -1], ["dup", 0], ["dup", -1], ["swap", 0, 1], ["swap", -1, -2], ["size", -2, 0],
             ["size", -2, 2], ["size", -2, 3], ["size", -2, -1], ["size", 1, 5], ["ins", 0, ["other", ","]], ["ins", -1, ["other", ","]],
@@ -1233,6 +1599,59 @@ def gen_toks(rng, tier):
     return out
 
 
+RAISING = ["x.nope", "1 // 0", "unknown", "x._priv", "x.(_priv)", "'{0._priv}'.format(x)", "'{0:>{1._priv}}'.format('ab', x)",
+           "from.nope", "to._priv", "from", "l[99]", "x(1)", "(g.gi_frame).f_builtins", "getattr(x, '_priv')", "x.pub.real.nope"]
+SUCCEEDING = ["x.pub", "1 + 2", "len", "'{0.pub}'.format(x)", "x == x", "[x][0].pub", "not x", "'{0:>{1}}'.format('ab', 5)", "x.(pub)",
+              "str.format", "l", "n * 2"]
+
+DOCS = [[{"a": [1, 2, 3], "b": "x"}, {"a": [1, 2, 4], "b": "y"}],
+        [[1, 2, {"k": "v"}], [1, 3, {"k": "w"}, 4]],
+        [{"a": {"id": 1, "v": [1, 2]}, "b": {"id": 2, "v": []}}, {"a": {"id": 1, "v": [2]}, "c": {"id": 3, "v": [0]}}],
+        [5, "five"], [[], {}], [{"x": None}, {"x": None}]]
+C_OK_IF = ["from.total_size == to.total_size", "from == to", "from.is_leaf", "len(from.children('')[0] ? 'ab' : 'abc') > 0", "1", "0 == 1",
+           "from.parent == to.parent", "not from.is_leaf", "'{0.total_size}'.format(from) == '1'", "to.total_size > 1"]
+C_OK_UNLESS = ["from == to", "from != to", "len(str(from)) > 3", "1 == 1", "0 == 1", "not from", "'{0}'.format(from) == '1'", "[from, to][0] == from"]
+C_RAISE = ["from.nope", "from._parent", "to._edit_modifiers", "from.(_parent)", "'{0._parent}'.format(from)", "'{0:>{1._parent}}'.format('ab', from)",
+           "1 // 0", "unknown", "from[0]", "from['a'] == to['a']", "from.total_size.nope", "(from.dfs('')[0]).gi_frame", "from.dfs()", "from +",
+           "getattr(from, '_parent')", "from.a", "to.id == 1", "from['id'] == to['id']", "x", "to(1)"]
+
+
+def gen_stateful(rng, tier):
+    out = []
+    nseq = 40 if tier == "quick" else 400
+    ncon = 50 if tier == "quick" else 500
+    for _ in range(nseq):
+        env, names = gen_env(rng)
+        g = G(rng, names, env)
+        exprs = []
+        for _ in range(rng.choice([2, 2, 3, 4])):
+            r = rng.random()
+            exprs.append(rng.choice(RAISING) if r < 0.45 else rng.choice(SUCCEEDING) if r < 0.8 else g.valid(2) if r < 0.9 else g.format_call())
+        out.append({"kind": "seq", "exprs": exprs, "env": env})
+    for _ in range(ncon):
+        docs = rng.choice(DOCS)
+        jobs = []
+        for _ in range(rng.choice([1, 2, 2, 3])):
+            r = rng.random()
+            mi = rng.choice(C_RAISE) if r < 0.45 else rng.choice(C_OK_IF) if r < 0.85 else None
+            r = rng.random()
+            mu = rng.choice(C_RAISE) if r < 0.35 else rng.choice(C_OK_UNLESS) if r < 0.7 else None
+            if mi is None and mu is None:
+                mi = rng.choice(C_RAISE)
+            jobs.append([mi, mu])
+        out.append({"kind": "constraints", "docs": docs, "jobs": jobs})
+    # every raising expression followed by a probe of the other kind, both matchers
+    for e in C_RAISE:
+        out.append({"kind": "constraints", "docs": DOCS[0], "jobs": [[e, None], [C_OK_IF[0], None]]})
+        out.append({"kind": "constraints", "docs": DOCS[0], "jobs": [[None, e], [None, C_OK_UNLESS[0]]]})
+    return out
+
+
+def random_copy(rng):
+    import random
+    return random.Random(rng.random())
+
+
 def _case(rng, text, env=None, kind="str", mut=None):
     if env is None:
         env, _ = gen_env(rng)
@@ -1265,6 +1684,7 @@ def gen(rng, tier):
             if rng.random() < 0.4:
                 cases.append(_case(rng, e, env=fixed, kind="rpn", mut=[rng.choice(RPN_MUTS) for _ in range(rng.choice([1, 1, 2]))]))
     cases += gen_toks(rng, tier)
+    cases += gen_stateful(rng, tier)
     n += len(cases)
     while len(cases) < n:
         env, names = gen_env(rng)
@@ -1306,6 +1726,26 @@ def gen(rng, tier):
 
 
 def shrink(case):
+    if case.get("kind") == "constraints":
+        jobs = case["jobs"]
+        for i in range(len(jobs)):
+            if len(jobs) > 1:
+                yield dict(case, jobs=jobs[:i] + jobs[i + 1:])
+            for k in (0, 1):
+                if jobs[i][k] is not None and jobs[i][1 - k] is not None:
+                    nj = list(jobs[i])
+                    nj[k] = None
+                    yield dict(case, jobs=jobs[:i] + [nj] + jobs[i + 1:])
+        for dcs in DOCS[3:]:
+            if case["docs"] != dcs:
+                yield dict(case, docs=dcs)
+        return
+    if case.get("kind") == "seq":
+        ex = case["exprs"]
+        for i in range(len(ex)):
+            if len(ex) > 1:
+                yield dict(case, exprs=ex[:i] + ex[i + 1:])
+        return
     env = case["env"]
     if case.get("kind") == "toks":
         toks = case["tokens"]
